@@ -213,6 +213,7 @@ class H:
         self.assumed = set()
         self.lemmas = set()
         self._stubs = []
+        self.findings = []
 
     # ---- inputs
     @property
@@ -411,6 +412,12 @@ class H:
                         pass
                 else:
                     setattr(owner, attr, old)
+
+    def finding(self, key, what):
+        """a failure whose *mechanism* matches a recorded defect (cli checks the key against known_findings.json;
+        an unlisted key is a violation)."""
+        if not any(f["key"] == key for f in self.findings):
+            self.findings.append(dict(key=key, what=_render(what)))
 
     # ---- bounded back end bookkeeping
     def case(self, key=None, nontrivial=True):
